@@ -43,7 +43,7 @@ def body(run: Run, replay):
             run.violation(str(ex), {}, tags)
     quick = run.tier == "quick"
     run.rule = ("order_stats r/n/c/p against TLC's exact tables on the grids tenths (n<=8), quarters (n<=14), halves (n<=24) - every grid "
-                "point; against the exact-rational evaluation of the Conf term for random (p, c, n<=400 quick / 3000 thorough, r<=25); scalar = broadcast; "
+                "point; against the exact-rational evaluation of the Conf term for random (p, c, n<=300 quick / 1500 thorough, r<=25); scalar = broadcast; "
                 "ksingle / kdouble: defining probability statements by quadrature / root terms (|residual| <= 1e-8) on the law grid, "
                 "monotone in p and c, limit z_p from above for c >= 1/2. distinct non-trivial = queries")
     run.assumptions = ["exact ties Conf = c admit both neighbours (binary64 cannot resolve them)",
@@ -136,11 +136,11 @@ def body(run: Run, replay):
     if __import__("os").environ.get("VERIF_DEBUG"): print("  grids done %.1fs" % (_t.time() - run.t0))
     # ---- beyond the grids: the Conf term in exact rationals
     rng = np.random.default_rng(run.seed + 20)
-    for trial in range(int(__import__('os').environ.get('C20_TRIALS', 100 if quick else 400))):
+    for trial in range(int(__import__('os').environ.get('C20_TRIALS', 100 if quick else 250))):
         try:
             p = float(rng.integers(500, 1000)) / 1000 if trial % 3 else float(rng.choice([0.9, 0.95, 0.99, 0.9973, 0.999]))
             c = float(rng.integers(50, 999)) / 1000 if trial % 3 else float(rng.choice([0.5, 0.9, 0.95, 0.99]))
-            n = int(rng.integers(2, (300 if quick else 3000) if trial % 2 else 60))
+            n = int(rng.integers(2, (300 if quick else 1500) if trial % 2 else 60))
             pq, cq = Fraction(p), Fraction(c)
             slack = Fraction(1, 10 ** 10)
 
